@@ -46,6 +46,8 @@ func init() {
 			}
 			return out
 		},
+		"strings.Clone":             func(i *interpreter, fr *frame, fn *ssa.Function, args []value) value { return args[0] },
+		"internal/stringslite.Clone": func(i *interpreter, fr *frame, fn *ssa.Function, args []value) value { return args[0] },
 		"runtime.Gosched":       stubNil,
 		"runtime.GC":            stubNil,
 		"runtime.KeepAlive":     stubNil,
@@ -288,6 +290,9 @@ func (i *interpreter) callSpecial(fr *frame, fn *ssa.Function, args []value) (va
 		switch fn.Pkg.Pkg.Path() {
 		case "sync/atomic", "internal/runtime/atomic":
 			return i.atomicOp(fn, args), true
+		case "github.com/wmnsk/go-pfcp/internal/logger":
+			i.w.stubs["go-pfcp internal logger (no-op)"]++
+			return stubZeroResults(i, fr, fn, args), true
 		case "github.com/prometheus/client_golang/prometheus", "github.com/prometheus/client_golang/prometheus/promhttp":
 			i.w.stubs["prometheus (zero results)"]++
 			return stubZeroResults(i, fr, fn, args), true
